@@ -7,3 +7,9 @@ pub use ordering_sender::OrderingSender;
 pub use unordered_receiver::{
     DeserializeError, EndOfStreamError, Error as UnorderedReceiverError, UnorderedReceiver,
 };
+
+#[cfg(kani)]
+#[allow(warnings, clippy::all, clippy::pedantic)]
+mod verif_kani {
+    include!(concat!(env!("IPA_VERIF_DIR"), "/harness/buffers.rs"));
+}
